@@ -592,6 +592,12 @@ def _plain_module(src, names, classes):
                 raise TranslateError("module rebinds %s (line %d)" % (t.id, n.lineno))
 
 
+def _eval_test(node, names):
+    """value of a side-effect free boolean expression over the given names"""
+    return eval(compile(ast.Expression(body=node), "<guard>", "eval"),     # noqa: S307
+                {"__builtins__": {}}, dict(names))
+
+
 PATH_METHODS = {"findPlasmaProfile", "findPlasmaProfilePoint", "_intermediatePressureResults",
                 "_getNextPressure", "deltaToTmunu", "plasmaVelocity", "temperatureProfileEqLHS",
                 "wallPressure"}
@@ -635,19 +641,31 @@ def call_site_facts(src, cls_name="EOM"):
             if len(c.args) > len(params) or starred:
                 raise TranslateError("call of %s at line %d: positional arguments" % (
                     g.name, c.lineno))
+            # any variable named like a parameter of the callee may only occur (however
+            # wrapped: float(Tminus), max(Tplus, Tminus), ...) in that parameter's own slot
             for i, a in enumerate(c.args):
-                if isinstance(a, ast.Name) and a.id in allp and params[i] != a.id:
-                    raise TranslateError(
-                        "call of %s at line %d passes the variable %s as parameter %s" % (
-                            g.name, c.lineno, a.id, params[i]))
+                exempt = set()      # arguments of a method of the right object: fields.m(index)
+                for y in ast.walk(a):
+                    if isinstance(y, ast.Call) and isinstance(y.func, ast.Attribute) and \
+                            isinstance(y.func.value, ast.Name) and y.func.value.id == params[i]:
+                        for z in y.args + [k_.value for k_ in y.keywords]:
+                            exempt |= {id(w) for w in ast.walk(z)}
+                for x in ast.walk(a):
+                    if id(x) in exempt:
+                        continue
+                    if isinstance(x, ast.Name) and x.id in allp and params[i] != x.id:
+                        raise TranslateError(
+                            "call of %s at line %d uses the variable %s for parameter %s" % (
+                                g.name, c.lineno, x.id, params[i]))
             for k in c.keywords:
                 if k.arg is None or k.arg not in allp:
                     raise TranslateError("call of %s at line %d: keyword %s" % (
                         g.name, c.lineno, k.arg))
-                if isinstance(k.value, ast.Name) and k.value.id in allp and k.value.id != k.arg:
-                    raise TranslateError(
-                        "call of %s at line %d passes the variable %s as parameter %s" % (
-                            g.name, c.lineno, k.value.id, k.arg))
+                for x in ast.walk(k.value):
+                    if isinstance(x, ast.Name) and x.id in allp and x.id != k.arg:
+                        raise TranslateError(
+                            "call of %s at line %d uses the variable %s for parameter %s" % (
+                                g.name, c.lineno, x.id, k.arg))
     # the single call of findPlasmaProfile
     sites = []
     for f in fns.values():
@@ -666,11 +684,16 @@ def call_site_facts(src, cls_name="EOM"):
     guard = inner[-1][1]
     gp = [a.arg for a in fns[fname].args.args]
     t = guard.test
-    ok = isinstance(t, ast.BoolOp) and isinstance(t.op, ast.Or) and len(t.values) == 2 and all(
-        isinstance(v, ast.Compare) and len(v.ops) == 1 and isinstance(v.ops[0], ast.Is) and
-        isinstance(v.left, ast.Name) and v.left.id in gp and
-        isinstance(v.comparators[0], ast.Constant) and v.comparators[0].value is None
-        for v in t.values) and len({v.left.id for v in t.values}) == 2
+    # semantic: over the two optional inputs (None / given) the test is true exactly when one
+    # of them is None, whatever its spelling
+    names = sorted({x.id for x in ast.walk(t) if isinstance(x, ast.Name)})
+    ok = len(names) == 2 and all(n in gp for n in names) and not any(
+        isinstance(x, (ast.Call, ast.Attribute, ast.Subscript)) for x in ast.walk(t))
+    if ok:
+        for va in (None, 1.0):
+            for vb in (None, 1.0):
+                ok = ok and bool(_eval_test(t, {names[0]: va, names[1]: vb})) == (
+                    va is None or vb is None)
     if not ok:
         raise TranslateError("guard of the findPlasmaProfile call (line %d): %s" % (
             guard.lineno, ast.unparse(t)))
@@ -690,7 +713,15 @@ def call_site_facts(src, cls_name="EOM"):
                       if isinstance(x, ast.Name) and isinstance(x.ctx, ast.Store)}
             if stores & {"temperatureProfile", "velocityProfile"}:
                 frozen += 1
-                if ast.unparse(n.test) != "not self.forceEnergyConservation" or n.orelse:
+                attrs = {ast.unparse(x) for x in ast.walk(n.test) if isinstance(x, ast.Attribute)}
+                sem = attrs == {"self.forceEnergyConservation"} and not any(
+                    isinstance(x, (ast.Call, ast.Subscript)) for x in ast.walk(n.test)) and not \
+                    [x for x in ast.walk(n.test) if isinstance(x, ast.Name) and x.id != "self"]
+                if sem:
+                    for val in (True, False):
+                        fake = type("S", (), {"forceEnergyConservation": val})()
+                        sem = sem and bool(_eval_test(n.test, {"self": fake})) == (not val)
+                if not sem or n.orelse:
                     raise TranslateError("wallPressure freezes the plasma profile under `%s` "
                                          "(line %d)" % (ast.unparse(n.test), n.lineno))
     for n in ast.walk(wp):
@@ -718,11 +749,116 @@ def call_site_facts(src, cls_name="EOM"):
             raise TranslateError("__init__ does not store forceEnergyConservation unchanged")
     if not (isinstance(dflt, ast.Constant) and dflt.value is True):
         raise TranslateError("default of forceEnergyConservation is not True")
+    for f in fns.values():
+        for n in ast.walk(f):
+            if isinstance(n, ast.Attribute) and isinstance(n.ctx, (ast.Store, ast.Del)) and \
+                    isinstance(n.value, ast.Name) and n.value.id == "self" and n.attr in fns:
+                raise TranslateError("%s rebinds the method self.%s (line %d)" % (
+                    f.name, n.attr, n.lineno))
+            if isinstance(n, ast.Call) and isinstance(n.func, ast.Name) and \
+                    n.func.id in ("setattr", "delattr") and n.args and \
+                    isinstance(n.args[0], ast.Name) and n.args[0].id == "self":
+                raise TranslateError("%s uses %s(self, ...) (line %d)" % (f.name, n.func.id,
+                                                                         n.lineno))
     stores = [n for f in fns.values() if f.name != "__init__" for n in ast.walk(f)
               if isinstance(n, ast.Attribute) and isinstance(n.ctx, ast.Store) and
               n.attr == "forceEnergyConservation"]
     if stores:
         raise TranslateError("forceEnergyConservation is reassigned (line %d)" % stores[0].lineno)
+    return facts
+
+
+def package_facts(sources):
+    """Facts about the rest of the package (dict file name -> text), fail closed:
+      * no class in src/WallGo derives from EOM (an override would bypass the model);
+      * BoltzmannSolver.setBackground stores a deepcopy of the background it is given and
+        then only touches its own copy (wallPressure returns the original object);
+      * every construction `EOM(...)` passes includeOffEq / forceEnergyConservation either as
+        literals or from `self.config.configEOM.<field>`, and the ConfigEOM default of that
+        field is True (conserveEnergyMomentum): the production default enforces conservation."""
+    facts = dict(eom_constructions=[])
+    cfg_defaults = {}
+    for fname, src in sources.items():
+        tree = ast.parse(src)
+        for n in ast.walk(tree):
+            if isinstance(n, ast.ClassDef):
+                for b in n.bases:
+                    if "EOM" in {x.id for x in ast.walk(b) if isinstance(x, ast.Name)} | {
+                            x.attr for x in ast.walk(b) if isinstance(x, ast.Attribute)}:
+                        raise TranslateError("%s: class %s derives from EOM" % (fname, n.name))
+                if n.name == "ConfigEOM":
+                    for st in n.body:
+                        if isinstance(st, ast.AnnAssign) and isinstance(st.target, ast.Name):
+                            cfg_defaults[st.target.id] = st.value
+    bsrc = sources.get("boltzmann.py")
+    if bsrc is None:
+        raise TranslateError("boltzmann.py not given")
+    pyrx.check_plain_source(bsrc, classes=["BoltzmannSolver"])
+    sb = [f for c in ast.parse(bsrc).body if isinstance(c, ast.ClassDef) and
+          c.name == "BoltzmannSolver" for f in c.body
+          if isinstance(f, ast.FunctionDef) and f.name == "setBackground"]
+    if len(sb) != 1:
+        raise TranslateError("BoltzmannSolver.setBackground not found")
+    par = [a.arg for a in sb[0].args.args][1:]
+    body = [st for st in sb[0].body if not (isinstance(st, ast.Expr) and isinstance(
+        st.value, ast.Constant))]
+    ok = len(par) == 1 and body and isinstance(body[0], ast.Assign) and \
+        ast.unparse(body[0].targets[0]) == "self.background" and \
+        isinstance(body[0].value, ast.Call) and \
+        ast.unparse(body[0].value.func) in ("deepcopy", "copy.deepcopy") and \
+        [ast.unparse(a) for a in body[0].value.args] == par and not body[0].value.keywords
+    for st in body[1:]:
+        ok = ok and par[0] not in {x.id for x in ast.walk(st) if isinstance(x, ast.Name)}
+    if not ok:
+        raise TranslateError("BoltzmannSolver.setBackground does not work on a deepcopy of its "
+                             "argument (line %d)" % sb[0].lineno)
+    facts["setBackground"] = "self.background = deepcopy(%s)" % par[0]
+    for fname, src in sources.items():
+        tree = ast.parse(src)
+        for f in ast.walk(tree):
+            if not isinstance(f, ast.FunctionDef):
+                continue
+            for c in ast.walk(f):
+                if not (isinstance(c, ast.Call) and isinstance(c.func, ast.Name) and
+                        c.func.id == "EOM"):
+                    continue
+                kw = {k.arg: k.value for k in c.keywords}
+                rec = dict(file=fname, line=c.lineno)
+                for key in ("includeOffEq", "forceEnergyConservation"):
+                    v = kw.get(key)
+                    if v is None:
+                        rec[key] = "constructor default"
+                        continue
+                    if isinstance(v, ast.Constant) and isinstance(v.value, bool):
+                        rec[key] = v.value
+                        continue
+                    src_expr = None
+                    if isinstance(v, ast.Name):
+                        asg = [st for st in ast.walk(f) if isinstance(st, ast.Assign) and
+                               len(st.targets) == 1 and isinstance(st.targets[0], ast.Name) and
+                               st.targets[0].id == v.id]
+                        if len(asg) == 1:
+                            src_expr = asg[0].value
+                    elif isinstance(v, ast.Attribute):
+                        src_expr = v
+                    txt = ast.unparse(src_expr) if src_expr is not None else ""
+                    if not txt.startswith("self.config.configEOM."):
+                        raise TranslateError("%s line %d: EOM(%s=%s) is not a literal nor a "
+                                             "ConfigEOM field" % (fname, c.lineno, key,
+                                                                  ast.unparse(v)))
+                    fld = txt.split(".")[-1]
+                    d = cfg_defaults.get(fld)
+                    if not (isinstance(d, ast.Constant) and isinstance(d.value, bool)):
+                        raise TranslateError("ConfigEOM.%s has no literal boolean default" % fld)
+                    rec[key] = "ConfigEOM.%s default %s" % (fld, d.value)
+                    if key == "forceEnergyConservation" and d.value is not True:
+                        raise TranslateError("%s line %d: EOM is built with "
+                                             "forceEnergyConservation=ConfigEOM.%s whose default "
+                                             "is %s" % (fname, c.lineno, fld, d.value))
+                if rec["forceEnergyConservation"] is False:
+                    raise TranslateError("%s line %d: EOM built with forceEnergyConservation="
+                                         "False" % (fname, c.lineno))
+                facts["eom_constructions"].append(rec)
     return facts
 
 
@@ -733,13 +869,15 @@ Local Open Scope R_scope.
 """
 
 
-def generate(src_eom, src_helpers, src_hydro):
+def generate(src_eom, src_helpers, src_hydro, package=None):
     spans = {}
     _plain_module(src_helpers, ["gammaSq"], [])
     _plain_module(src_eom, [], ["EOM"])
     _plain_module(src_hydro, [], ["Hydrodynamics"])
     pyrx.check_plain_source(src_hydro, classes=["Hydrodynamics"])
     facts = call_site_facts(src_eom)
+    if package is not None:
+        facts["package"] = package_facts(package)
     gdef, sp = module_function(src_helpers, "gammaSq")
     spans["gammaSq"] = ("helpers.py",) + sp
     tr = PlasmaTranslator(src_eom, "EOM", EOM_EXT,
